@@ -32,7 +32,7 @@ ORACLES = {
             "argument_mutated", "unexpected_exception", "not_annealresults"},
     "C12": {"not_reproducible", "zero_temperature_increase", "refinement_mismatch", "distribution_mismatch",
             "impossible_state_reached", "unexpected_exception"},
-    "C17": {"heap_overflow", "bad_free", "heap_leak", "bad_state_value", "nonfinite_value", "rand_int_bad_bound",
+    "C17": {"heap_overflow", "bad_free", "heap_leak", "bad_state_value", "nonfinite_value", "rand_int_bad_bound", "rand_int_out_of_range",
             "absurd_allocation", "unexpected_exception"},
 }
 
@@ -81,13 +81,13 @@ class World(BaseWorld):
             return list(range(n))
         style = self.cfg["labels"]
         if style == "int":
-            pool = [0, 1, 2, 3, 4, 5, 7, 11]
+            pool = [0, 1, 2, 3, 4, 5, 7, 11, 6, 8, 9, 13, 21]
         elif style == "str":
-            pool = ["a", "b", "c", "x0", "x1", "y", "zz", "q"]
+            pool = ["a", "b", "c", "x0", "x1", "y", "zz", "q", "r", "s", "t", "u1", "u2"]
         elif style == "tuple":
-            pool = [("v", i) for i in range(4)] + [("w", 0), ("a", 1), ("a", 2), ("u", 5)]
+            pool = [("v", i) for i in range(6)] + [("w", 0), ("a", 1), ("a", 2), ("u", 5), ("w", 1), ("w", 2), ("z", 0)]
         else:
-            pool = [0, 1, "a", "b", ("v", 0), ("v", 1), 5, "x"]
+            pool = [0, 1, "a", "b", ("v", 0), ("v", 1), 5, "x", 2, 3, "c", ("v", 2), "d"]
         return rng.sample(pool, n)
 
     def gen_model(self, rng, fn):
@@ -101,7 +101,8 @@ class World(BaseWorld):
         n = rng.choice(c["sizes"])
         labels = self.gen_labels(rng, n, matrix)
         terms = {}
-        shape = choose_weighted(rng, [("dense", 4), ("linear_only", 1), ("no_linear", 1.5), ("sparse", 3), ("single_term", 1)])
+        shape = choose_weighted(rng, [("dense", 4), ("linear_only", 1), ("no_linear", 1.5), ("sparse", 3), ("single_term", 1),
+                                      ("many_terms", 1.2 if n >= 4 else 0), ("star", 1.0 if n >= 4 else 0)])
         coefs = c["coefs"]
 
         def coef():
@@ -120,6 +121,26 @@ class World(BaseWorld):
                         key = tuple(sorted(key, key=sort_key))
                     if not any(set(key) == set(k) for k in terms):
                         terms[key] = coef()
+            if shape == "many_terms":
+                # many distinct couplings: long neighbour / subgraph lists, many reallocations in the PUSO kernel
+                import itertools
+                allk = [k for d in range(2, min(maxdeg, 3) + 1) for k in itertools.combinations(sorted(labels, key=sort_key), d)]
+                rng.shuffle(allk)
+                for k in allk[: rng.randint(12, 40)]:
+                    terms[tuple(k)] = coef()
+                for l in labels:
+                    if rng.random() < 0.5:
+                        terms[(l,)] = coef()
+            if shape == "star":
+                # one hub spin that takes part in (almost) every term
+                hub = labels[rng.randrange(n)]
+                others = [l for l in labels if l != hub]
+                for l in others:
+                    terms[tuple(sorted((hub, l), key=sort_key))] = coef()
+                if maxdeg >= 3:
+                    for _ in range(rng.randint(0, 10)):
+                        pair = rng.sample(others, 2)
+                        terms[tuple(sorted([hub] + pair, key=sort_key))] = coef()
             if shape == "single_term":
                 d = rng.randint(1, min(maxdeg, n))
                 terms[tuple(sorted(rng.sample(labels, d), key=sort_key))] = coef()
@@ -211,7 +232,7 @@ class World(BaseWorld):
         op["seed"] = rng.choice([None, 0, 1, 2**31 - 1, rng.randrange(2**31), rng.randrange(1000)])
         op["clock"] = [rng.choice([0, 1, -1, 1700000000, 2**32 + 5, 2**31 - 1, rng.randrange(2**31)])]
         # which RNG fault
-        kinds = [("pass", c["w_pass"]), ("script_uniform", c["w_script"]), ("extreme", c["w_extreme"])]
+        kinds = [("pass", c["w_pass"]), ("script_uniform", c["w_script"]), ("extreme", c["w_extreme"]), ("raw", c.get("w_raw", 1))]
         can_refine = (fn, m["type"]) in MATRIX_ROUTE and op["initial_state"] is not None and not isinstance(op["schedule"], str) and op["num_anneals"] > 0 \
             and not m["edits"] and len(universe) <= 10
         if can_refine:
@@ -224,6 +245,12 @@ class World(BaseWorld):
             nd = rng.randint(0, 60)
             op["rng"] = {"mode": "script", "d": [rng.randrange(2**32) / 2.0**32 for _ in range(nd)],
                          "i": [rng.randrange(64) for _ in range(rng.randint(0, 60))], "cycle": rng.random() < 0.3}
+        elif mode == "raw":
+            # script the generator's raw 32-bit words: values a real PCG stream emits once in 2^32 draws
+            E = [0xFFFFFFFF, 0, 0x80000000, 0x7FFFFFFF, 1, 0xFFFFFFFE]
+            words = rng.choice([[0xFFFFFFFF], [0], [0xFFFFFFFF, 0], [0, 0xFFFFFFFF], [0x80000000], [0x7FFFFFFF, 0xFFFFFFFF],
+                                [rng.choice(E + [rng.randrange(2**32)]) for _ in range(rng.randint(2, 12))]])
+            op["rng"] = {"mode": "raw", "words": words, "cycle": rng.random() < 0.8}
         elif mode == "extreme":
             hi = 1 - 2.0**-32
             op["rng"] = {"mode": "script", "d": rng.choice([[0.0], [hi], [0.0, hi], [hi, 0.0], [0.5], [0.4999999, 0.5]]),
@@ -334,7 +361,11 @@ class World(BaseWorld):
         sh.reset()
         sh.log_enabled(log)
         r = op.get("rng", {"mode": "pass"})
-        if r["mode"] == "script":
+        if r["mode"] == "raw":
+            sh.passthrough()
+            sh.raw_script(r.get("words"), r.get("cycle", True))
+            self.fault("rng_raw_words_scripted")
+        elif r["mode"] == "script":
             sh.script(r.get("d"), r.get("i"), r.get("cycle", False))
             self.fault("rng_boundary" if r.get("boundary") else ("rng_scripted_cycle" if r.get("cycle") else "rng_scripted"))
         else:
@@ -369,6 +400,11 @@ class World(BaseWorld):
             self.fail("bad_free", "free/realloc of a pointer the extension does not own (or double free): %d" % c["bad_free"])
         if c["bad_bound"]:
             self.fail("rand_int_bad_bound", "rand_int called with bound <= 0")
+        if c["bad_int"]:
+            self.fail("rand_int_out_of_range", "rand_int returned a value outside [0, bound) %d time(s) and the kernel used it as a spin index "
+                      "(raw generator words scripted: %r)" % (c["bad_int"], op.get("rng", {}).get("words")))
+        if c["bad_double"]:
+            self.probe("rand_double_outside_unit_interval", c["bad_double"])
         if c["neg_allocs"]:
             self.fail("absurd_allocation", "allocation of >= 2^40 bytes requested")
         if c["zero_allocs"]:
@@ -556,7 +592,9 @@ class World(BaseWorld):
             digest = self.result_digest(out["res"])
         # seed=None streams are seeded from the (simulated) clock AND a stack address: whenever such a stream was
         # actually consumed (pass-through, or a script that ran dry) the outcome is not replayable -> verdict only
-        unrepl = op.get("seed") is None and (op.get("rng", {}).get("mode", "pass") == "pass" or c["underrun_d"] + c["underrun_i"] > 0)
+        rmode = op.get("rng", {}).get("mode", "pass")
+        fell_through = c["underrun_d"] + c["underrun_i"] > 0 if rmode == "script" else (c["raw_underrun"] > 0 if rmode == "raw" else True)
+        unrepl = op.get("seed") is None and fell_through
         if unrepl:
             self.probe("unreplayable_unseeded_calls")
             digest = ["unseeded", len(digest) if isinstance(digest, list) else 0]
@@ -570,7 +608,7 @@ class World(BaseWorld):
         ev.append(digest)
         ev.append([c["n_double"], c["n_int"], c["clock_reads"], c["allocs"]] if not unrepl else [c["clock_reads"]])
         self.last = (op, digest)
-        self.last_underrun = c["underrun_d"] + c["underrun_i"]
+        self.last_underrun = c["underrun_d"] + c["underrun_i"] + c["raw_underrun"]
         if record:
             self.underruns.append(self.last_underrun)
         return ev
@@ -590,6 +628,8 @@ class World(BaseWorld):
         want = self.results[of]
         seeded = orig.get("seed") is not None and orig["seed"] >= 0
         passthrough = orig.get("rng", {}).get("mode", "pass") == "pass"
+        if orig.get("rng", {}).get("mode") == "raw":
+            passthrough = seeded      # fully determined by (seed, raw script)
         if seeded and passthrough:
             self.probe("seeded_twin_calls")
             if digest != want:
@@ -653,7 +693,7 @@ class World(BaseWorld):
 def gen_cfg(rng, prop, tier):
     fns_all = ["quso", "puso", "qubo", "pubo"]
     fns = rng.choice([fns_all, fns_all, ["quso", "qubo"], ["puso", "pubo"], [rng.choice(fns_all)]])
-    sizes = rng.choice([[1, 2, 3], [2, 3, 4], [3, 4, 5, 6], [0, 1, 2], [1, 2, 3, 4, 5, 6], [5, 6, 7, 8]])
+    sizes = rng.choice([[1, 2, 3], [2, 3, 4], [3, 4, 5, 6], [0, 1, 2], [1, 2, 3, 4, 5, 6], [5, 6, 7, 8], [8, 10, 12]])
     cfg = {
         "fns": fns, "sizes": sizes,
         "labels": rng.choice(["int", "str", "tuple", "mixed"]),
@@ -663,12 +703,12 @@ def gen_cfg(rng, prop, tier):
         "p_offset": rng.choice([0.0, 0.3, 0.7]),
         "p_stale": rng.choice([0.0, 0.0, 0.15, 0.4]),
         "p_init": rng.choice([0.0, 0.4, 0.8, 1.0]),
-        "num_anneals": rng.choice([[1], [1, 2, 5], [-1, 0, 1, 2, 5], [2, 3], [1, 2, 5, 9]]),
+        "num_anneals": rng.choice([[1], [1, 2, 5], [-1, 0, 1, 2, 5], [2, 3], [1, 2, 5, 9], [7, 16, 33]]),
         "w_default_sched": rng.choice([0.3, 1, 3]),
         "w_explicit": rng.choice([1, 3, 6]),
         "w_zero": rng.choice([0.3, 1, 3]),
         "w_pass": rng.choice([1, 3]), "w_script": rng.choice([0, 1, 3]), "w_extreme": rng.choice([0, 1, 2]),
-        "w_boundary": rng.choice([0, 2, 5]),
+        "w_boundary": rng.choice([0, 2, 5]), "w_raw": rng.choice([0, 1, 2]),
         "p_repeat": rng.choice([0.0, 0.15, 0.3, 0.5]),
         "p_dist": 0.0,
         "dist_n": 20000,
@@ -708,6 +748,10 @@ def shrink_op(op):
         out.append(dict(op, schedule=op["schedule"][:-1]))
         out.append(dict(op, schedule=op["schedule"][1:]))
     r = op.get("rng", {})
+    if r.get("mode") == "raw":
+        out.append(dict(op, rng={"mode": "pass"}))
+        if len(r.get("words", [])) > 1:
+            out.append(dict(op, rng=dict(r, words=r["words"][:1])))
     if r.get("mode") == "script":
         if not r.get("boundary"):
             out.append(dict(op, rng={"mode": "pass"}))
